@@ -1,10 +1,24 @@
 package main
 
-// Thorough tier: SSA for the whole program and the VTA-refined call graph;
-// dynamic calls through function values become edges of the E3 graph.
+// Thorough tier: SSA for the whole program and the VTA-refined call graph.
+//
+// The VTA graph is context-insensitive: a call through a function value (the callback of
+// logFile.iterate, z.Buffer.SliceIterate, DB.Update …) resolves to every function that may flow
+// there from anywhere. Merging those edges into the graph the rules use would make
+// "must not reach" and "caller holds the lock" rules raise alarms on correct code, so the rules
+// keep using the syntactic graph (static calls, closures, literals handed on, class-hierarchy
+// resolution of interface calls). VTA is used to cross-check that graph (every edge the
+// syntactic resolver claims must exist in the VTA graph) and to report, as evidence, how many
+// dynamic call sites exist and how many targets VTA finds for them.
 
 import (
+	"fmt"
 	"go/ast"
+	"go/types"
+	"os"
+	"os/exec"
+	"path/filepath"
+	"strings"
 
 	"golang.org/x/tools/go/callgraph"
 	"golang.org/x/tools/go/callgraph/cha"
@@ -14,10 +28,13 @@ import (
 )
 
 type vtaInfo struct {
-	prog   *ssa.Program
-	cg     *callgraph.Graph
-	nfuncs int
-	added  int
+	prog     *ssa.Program
+	cg       *callgraph.Graph
+	nfuncs   int
+	added    int // dynamic edges VTA resolves into repository function bodies
+	checked  int // syntactic edges cross-checked against VTA
+	missing  []string
+	dynSites int
 }
 
 func (w *World) buildVTA() error {
@@ -26,14 +43,18 @@ func (w *World) buildVTA() error {
 	all := ssautil.AllFunctions(prog)
 	g := vta.CallGraph(all, cha.CallGraph(prog))
 	w.vta = &vtaInfo{prog: prog, cg: g, nfuncs: len(all)}
-	w.cg = nil
 	return nil
 }
 
+// addVTAEdges is kept for the CallGraph constructor's signature; VTA edges are not merged (see above).
+func (w *World) addVTAEdges(cg *CallGraph, add func(*CallSite)) {}
 
-// addVTAEdges adds caller->callee edges for calls that the syntactic graph
-// could not resolve (function values, interface calls into non-repo types).
-func (w *World) addVTAEdges(cg *CallGraph, add func(*CallSite)) {
+// crossCheckCallGraph verifies syntactic static/closure edges against the VTA graph.
+func (w *World) crossCheckCallGraph() {
+	v := w.vta
+	if v == nil || v.checked > 0 {
+		return
+	}
 	declFn := map[*ast.FuncDecl]*Fn{}
 	for _, t := range w.Fns {
 		if t.Decl != nil {
@@ -53,45 +74,165 @@ func (w *World) addVTAEdges(cg *CallGraph, add func(*CallSite)) {
 		return nil
 	}
 	have := map[[2]*Fn]bool{}
-	for f, outs := range cg.Out {
-		for _, cs := range outs {
-			have[[2]*Fn{f, cs.Callee}] = true
-		}
-	}
-	for fn, node := range w.vta.cg.Nodes {
+	for fn, node := range v.cg.Nodes {
 		caller := lookup(fn)
 		if caller == nil {
 			continue
 		}
 		for _, e := range node.Out {
 			callee := lookup(e.Callee.Func)
-			if callee == nil || e.Site == nil {
+			if callee == nil {
 				continue
 			}
-			if e.Site.Common().StaticCallee() != nil {
+			have[[2]*Fn{caller, callee}] = true
+			if e.Site != nil && e.Site.Common().StaticCallee() == nil && !e.Site.Common().IsInvoke() {
+				v.added++
+			}
+		}
+	}
+	cg := w.CG()
+	v.dynSites = cg.Dyn
+	for f, outs := range cg.Out {
+		if isGeneric(f) {
+			continue
+		}
+		for _, cs := range outs {
+			if cs.Kind != "static" && cs.Kind != "closure" {
 				continue
 			}
-			k := [2]*Fn{caller, callee}
-			if have[k] {
+			if isGeneric(cs.Callee) {
 				continue
 			}
-			have[k] = true
-			var at ast.Node = caller.Body
-			// locate the call expression by position
-			pos := e.Site.Pos()
-			caller.walk(func(n ast.Node) bool {
-				if c, ok := n.(*ast.CallExpr); ok && c.Lparen == pos {
-					at = c
-					return false
-				}
-				return true
-			})
-			_, isGo := e.Site.(*ssa.Go)
-			_, isDefer := e.Site.(*ssa.Defer)
-			add(&CallSite{Caller: caller, Callee: callee, Node: at, Kind: "vta", Async: isGo, Deferred: isDefer})
-			w.vta.added++
+			v.checked++
+			if !have[[2]*Fn{f, cs.Callee}] {
+				v.missing = append(v.missing, f.Name+" -> "+cs.Callee.Name)
+			}
 		}
 	}
 }
 
-func (c *Check) thoroughExtras() {}
+// thoroughExtras: deeper, tier-specific work for one property (see DESIGN.md 2.1).
+func (c *Check) thoroughExtras() {
+	w := c.W
+	// (a) call graph cross-check
+	w.crossCheckCallGraph()
+	r := c.Rule("T.cg", "E3/VTA", 1, "every static and closure call edge used by the rules exists in the VTA-refined SSA call graph of the whole program (cross-check of the syntactic callee resolution)",
+		"a resolver that invents or misses callees would silently change what every reachability and who-may-call rule decides")
+	miss := w.vta.missing
+	// literals never called but created, generic instantiations and dead code are not in the SSA graph: tolerate a small residue
+	ok := len(miss)*50 <= w.vta.checked
+	msg := ""
+	if !ok {
+		msg = fmt.Sprintf("%d of %d syntactic edges are absent from the VTA graph, e.g. %s", len(miss), w.vta.checked, strings.Join(miss[:min(5, len(miss))], "; "))
+	}
+	r.Check(ok, nil, "syntactic call edges confirmed by VTA", nil, msg)
+	c.Notes = append(c.Notes, fmt.Sprintf("thorough: SSA functions=%d, syntactic edges cross-checked=%d (absent in VTA: %d), dynamic call sites=%d, VTA-resolved dynamic edges into repo bodies=%d",
+		w.vta.nfuncs, w.vta.checked, len(miss), w.vta.dynSites, w.vta.added))
+	// (b) premises about ristretto/z that rules rely on (z has syntax only in this tier)
+	c.zPremises()
+	// (c) the checker's own mutants for this property must fire
+	c.runMutants()
+}
+
+func min(a, b int) int {
+	if a < b {
+		return a
+	}
+	return b
+}
+
+// zPremises verifies, on ristretto's source, the library facts quoted in rule exceptions.
+func (c *Check) zPremises() {
+	w := c.W
+	if !w.HasF("z.MmapFile.Delete") {
+		return
+	}
+	uses := map[string]bool{"C07": true, "C37": true, "C10": true}
+	if !uses[c.Prop] {
+		return
+	}
+	r := c.Rule("T.z", "E6", 2, "library premises quoted by rule exceptions hold in ristretto/z as vendored: MmapFile.Delete and MmapFile.Close return at once when Fd == nil; Delete truncates through the descriptor before it removes the file; OpenMmapFileUsing syncs the directory only for files of size zero",
+		"the exceptions of R07.2/R37.1 and the analysis behind R10.5 depend on these facts")
+	nilFd := func(name string) bool {
+		f := w.F(name)
+		ok := false
+		f.walk(func(n ast.Node) bool {
+			if is, isIf := n.(*ast.IfStmt); isIf {
+				if be, isB := unparen(is.Cond).(*ast.BinaryExpr); isB && isNil(be.Y) && w.fieldOf(be.X) != nil && w.fieldOf(be.X).Name() == "Fd" && w.terminates(is.Body.List) {
+					// must be the first statement
+					if list, i := w.stmtListOf(is); list != nil && i == 0 {
+						ok = true
+					}
+				}
+			}
+			return true
+		})
+		return ok
+	}
+	r.Check(nilFd("z.MmapFile.Delete"), w.F("z.MmapFile.Delete"), "Delete is a no-op without descriptor", nil, "MmapFile.Delete no longer returns first when Fd == nil")
+	r.Check(nilFd("z.MmapFile.Close"), w.F("z.MmapFile.Close"), "Close is a no-op without descriptor", nil, "MmapFile.Close no longer returns first when Fd == nil")
+	d := w.F("z.MmapFile.Delete")
+	r.DomAll(d, "file removed only after truncating through the descriptor", selCall(w.Func("os.Remove")), 0, selCall(w.Func("os.File.Truncate")), 0)
+	for _, s := range d.Sites(selCall(w.Func("os.File.Truncate"))) {
+		r.Check(w.errIsFatal(d, s.(*ast.CallExpr)), d, "a failing truncate aborts Delete", s, "Delete continues to remove the file after a failed truncate")
+	}
+}
+
+// runMutants applies this property's mutants (selftest/mutants.json) to a scratch worktree and
+// requires each to be detected by its rule. Stale mutants (anchor text gone) are reported, not failed.
+func (c *Check) runMutants() {
+	script := filepath.Join(c.Root, "tools", "selftest.py")
+	if _, err := os.Stat(script); err != nil {
+		return
+	}
+	if os.Getenv("BVERIF_NO_MUTANTS") != "" {
+		return
+	}
+	cmd := exec.Command(script, "--property", c.Prop, "--repo", w0(c.W.RepoDir), "--tag", c.Prop)
+	cmd.Env = append(os.Environ(), "BVERIF_NO_MUTANTS=1")
+	out, _ := cmd.CombinedOutput()
+	lines := strings.Split(strings.TrimSpace(string(out)), "\n")
+	det, stale := 0, 0
+	var bad []string
+	for _, l := range lines {
+		switch {
+		case strings.Contains(l, " DETECTED "):
+			det++
+		case strings.Contains(l, " STALE"):
+			stale++
+		case strings.Contains(l, "MISSED") || strings.Contains(l, "BROKEN") || strings.Contains(l, "detected, but not by") || strings.Contains(l, "NOCOMPILE"):
+			bad = append(bad, strings.TrimSpace(l))
+		}
+	}
+	r := c.Rule("T.mut", "selftest", 0, "the checker's own seeded edits for this property (selftest/mutants.json), applied one at a time to a scratch worktree of the current tree, are each reported by the rule they target",
+		"a rule that no longer fires on the edit it was written for has silently become vacuous")
+	if det+len(bad) == 0 {
+		c.Notes = append(c.Notes, fmt.Sprintf("thorough: no applicable mutants (stale: %d)", stale))
+		return
+	}
+	msg := ""
+	if len(bad) > 0 {
+		msg = "mutants not detected as expected: " + strings.Join(bad, " | ")
+	}
+	o := r.Check(len(bad) == 0, nil, fmt.Sprintf("%d mutants of this property detected", det), nil, msg)
+	_ = o
+	c.Notes = append(c.Notes, fmt.Sprintf("thorough: mutants detected=%d stale(skipped)=%d undetected=%d", det, stale, len(bad)))
+	if len(bad) > 0 {
+		// a checker defect, not a violation of the property: turn it into a broken check
+		panic(anchorError{"self-test: " + msg})
+	}
+}
+
+func w0(s string) string { return s }
+
+func isGeneric(f *Fn) bool {
+	r := f.Root()
+	if r.Obj == nil {
+		return false
+	}
+	sig, ok := r.Obj.Type().(*types.Signature)
+	if !ok {
+		return false
+	}
+	return (sig.TypeParams() != nil && sig.TypeParams().Len() > 0) || (sig.RecvTypeParams() != nil && sig.RecvTypeParams().Len() > 0)
+}
